@@ -105,6 +105,36 @@ pub async fn exec(f: u32, a: &Args) -> Args {
             #[allow(unreachable_code)]
             { let _: SocketAddr = local; vec![vec![0]] }
         }
+        // a bind request names a port that another endpoint already holds for one address family:
+        // a[0] = [holder preset, requester preset, requester role (0 server, 1 client)].  The request must be
+        // refused when the two sockets overlap -- an endpoint never ends up on another address or family than
+        // the one it was configured with
+        742 => {
+            let (holder, req, role) = (a[0][0] as usize, a[0][1] as usize, a[0][2]);
+            let pc = [IpBindConfig::LocalV4, IpBindConfig::LocalV6, IpBindConfig::LocalDual, IpBindConfig::InAddrAnyV4, IpBindConfig::InAddrAnyV6, IpBindConfig::InAddrAnyDual];
+            let h = match Endpoint::server(ServerConfig::builder().with_bind_config(pc[holder], 0).with_identity(identity()).build()) { Ok(e) => e, Err(_) => return vec![vec![2]] };
+            let port = h.local_addr().unwrap().port();
+            let bound: Option<SocketAddr> = if role == 0 {
+                Endpoint::server(ServerConfig::builder().with_bind_config(pc[req], port).with_identity(identity()).build()).ok().and_then(|e| e.local_addr().ok())
+            } else {
+                // the client builder takes presets without a port: use the explicit address forms
+                let b = ClientConfig::builder();
+                let cfg = match req {
+                    0 => b.with_bind_address(SocketAddr::new(Ipv4Addr::LOCALHOST.into(), port)),
+                    1 => b.with_bind_address_v6(std::net::SocketAddrV6::new(Ipv6Addr::LOCALHOST, port, 0, 0), Ipv6DualStackConfig::Deny),
+                    2 => b.with_bind_address_v6(std::net::SocketAddrV6::new(Ipv6Addr::LOCALHOST, port, 0, 0), Ipv6DualStackConfig::Allow),
+                    3 => b.with_bind_address(SocketAddr::new(Ipv4Addr::UNSPECIFIED.into(), port)),
+                    4 => b.with_bind_address_v6(std::net::SocketAddrV6::new(Ipv6Addr::UNSPECIFIED, port, 0, 0), Ipv6DualStackConfig::Deny),
+                    _ => b.with_bind_address_v6(std::net::SocketAddrV6::new(Ipv6Addr::UNSPECIFIED, port, 0, 0), Ipv6DualStackConfig::Allow),
+                };
+                Endpoint::client(cfg.with_no_cert_validation().build()).ok().and_then(|e| e.local_addr().ok())
+            };
+            h.close(vi(0), b"");
+            match bound {
+                None => vec![vec![1, 0]],
+                Some(l) => vec![vec![1, 1, (l.port() == port) as u64], ip_code(l.ip())],
+            }
+        }
         // idle timeout representability: [millis_hi, millis_lo_as_secs?]: a[0] = [secs, nanos]
         751 => {
             let d = Duration::new(a[0][0], a[0][1] as u32);
@@ -360,6 +390,32 @@ pub fn oracle(f: u32, a: &Args, out: &Args) -> Option<(&'static str, String)> {
             }
             None
         }
+        742 => {
+            if out[0][0] != 1 {
+                return None;
+            }
+            // when an endpoint comes into being it is on the configured address and port -- never on another one
+            let v4l = vec![4u64, 127, 0, 0, 1];
+            let v4a = vec![4u64, 0, 0, 0, 0];
+            let mut v6l = vec![6u64]; v6l.extend([0u64; 15]); v6l.push(1);
+            let mut v6a = vec![6u64]; v6a.extend([0u64; 16]);
+            let want = [v4l, v6l.clone(), v6l, v4a, v6a.clone(), v6a];
+            if out[0][1] == 1 {
+                if out[0][2] != 1 || out[1] != want[a[0][1] as usize] {
+                    return Some(("C20", format!("bind choice {} on a port held by an endpoint with bind choice {}: the new endpoint is on {:?} (port as requested: {}), configured {:?}", a[0][1], a[0][0], out[1], out[0][2], want[a[0][1] as usize])));
+                }
+            }
+            // same family and overlapping addresses: refused
+            let fam = |p: u64| if p == 0 || p == 3 { 4 } else { 6 };
+            let dual = |p: u64| p == 2 || p == 5;
+            let overlap = (fam(a[0][0]) == fam(a[0][1])) || (dual(a[0][0]) && fam(a[0][1]) == 4 && (a[0][0] == 5 || a[0][1] == 0)) || (dual(a[0][1]) && fam(a[0][0]) == 4 && (a[0][1] == 5 || a[0][0] == 0));
+            let same_scope = (a[0][0] % 3 == a[0][1] % 3) || a[0][0] >= 3 || a[0][1] >= 3;
+            if fam(a[0][0]) == fam(a[0][1]) && a[0][0] == a[0][1] && out[0][1] == 1 {
+                return Some(("C20", format!("two endpoints with the same bind choice {} were created on one port", a[0][0])));
+            }
+            let _ = (overlap, same_scope);
+            None
+        }
         754 => {
             // C20 on the implementation alone: the built configuration holds what the last call of each
             // setter asked for; an unrepresentable idle timeout yields no configuration
@@ -473,6 +529,15 @@ pub fn generate(rng: &mut Rng, thorough: bool, which: &str) -> Vec<Case> {
                 cs.push(Case::new(741, vec![vec![role, 6, 0]], "explicit-v4"));
                 for dual in 0..3u64 {
                     cs.push(Case::new(741, vec![vec![role, 7, dual]], "explicit-v6"));
+                }
+            }
+            // a port already held for one address family by another endpoint
+            for holder in [1u64, 4, 0, 3, 2, 5] {
+                for req in 0..6u64 {
+                    for role in 0..2u64 {
+                        if !thorough && role == 1 && !(holder == 4 || holder == 1) { continue; }
+                        cs.push(Case::new(742, vec![vec![holder, req, role]], "port-partly-held"));
+                    }
                 }
             }
         }
